@@ -407,6 +407,12 @@ def h_def(ctx, spec):
                 except c.DecodeError: rej = True
             flex = spec[-1][0] in ('seq',) or (spec[-1][0] == 'buf' and not spec[-1][2])
             if not flex: ctx.check('short:rejected', rej)
+            # short input is refused with length checking off as well (that switch is about trailing octets only)
+            rej = False
+            with ctx.no_raise('short-nocheck:only-DecodeError', allowed=(c.DecodeError,)):
+                try: build(T, spec, check_len=False).from_bytes(mk_bytes(ctx, o[:L - 1]))
+                except c.DecodeError: rej = True
+            if not flex: ctx.check('short-nocheck:rejected', rej)
         flexible_tail = spec[-1][0] == 'seq' or (spec[-1][0] == 'buf' and not spec[-1][2])
         if not flexible_tail:
             x = ctx.int('extra', 0, 255); rej = False
